@@ -783,6 +783,16 @@ def _other_writers(mod, counter, lock, conn):
     for name, code in codes:
         if any(i.opname in ("STORE_ATTR", "DELETE_ATTR") and i.argval in protected for i in dis.get_instructions(code)):
             out.append(name)
+    # the logging helpers see the live Request: they must only read it
+    mutators = {"pop", "popitem", "clear", "update", "setdefault", "add_header", "add_unredirected_header",
+                "remove_header", "__setitem__", "__delitem__"}
+    for name in ("_log_request", "_log_response"):
+        code = methods.get(name)
+        if code is not None and any(
+                i.opname in ("STORE_SUBSCR", "DELETE_SUBSCR", "STORE_ATTR", "DELETE_ATTR")
+                or (i.opname in ("LOAD_ATTR", "LOAD_METHOD") and i.argval in mutators)
+                for i in dis.get_instructions(code)):
+            out.append("_HttpConnImpl.%s modifies what it logs" % name)
     return out
 
 
@@ -1186,7 +1196,8 @@ def _is_id_name(name):
     return name.lower() == "x-request-id"
 
 
-FAILURES = {"url": "URLError", "http": "HTTPError", "timeout": "TimeoutError", "exc": "RuntimeError"}
+FAILURES = {"url": "URLError", "http": "HTTPError", "timeout": "TimeoutError", "exc": "RuntimeError",
+            "disc": "RemoteDisconnected", "reset": "ConnectionResetError", "pipe": "BrokenPipeError"}
 
 
 def make_failure(kind, request):
@@ -1197,6 +1208,13 @@ def make_failure(kind, request):
         return urllib.error.URLError("connection refused")
     if kind == "timeout":
         return socket.timeout("timed out")
+    if kind == "disc":
+        import http.client
+        return http.client.RemoteDisconnected("Remote end closed connection without response")
+    if kind == "reset":
+        return ConnectionResetError(104, "Connection reset by peer")
+    if kind == "pipe":
+        return BrokenPipeError(32, "Broken pipe")
     if kind == "http":
         class _Fp:                      # the parts of http.client.HTTPResponse that do_request's logging touches
             _method = request.get_method()
@@ -1217,7 +1235,11 @@ def make_failure(kind, request):
 def _failure_matches(kind, e):
     import socket
     import urllib.error
-    want = {"url": urllib.error.URLError, "http": urllib.error.HTTPError, "timeout": socket.timeout, "exc": RuntimeError}[kind]
+    import http.client
+    want = {"url": urllib.error.URLError, "http": urllib.error.HTTPError, "timeout": socket.timeout, "exc": RuntimeError,
+            "disc": http.client.RemoteDisconnected, "reset": ConnectionResetError, "pipe": BrokenPipeError}[kind]
+    if kind == "reset" and isinstance(e, http.client.RemoteDisconnected):
+        return False
     if kind == "url" and isinstance(e, urllib.error.HTTPError):
         return False
     return isinstance(e, want)
@@ -1228,7 +1250,8 @@ class _Capture:
     thread sent what under 'X-request-id'"""
 
     def __init__(self):
-        self.sent = {}
+        self.sent = {}         # thread -> [(number of the send() call of that thread, id handed to the opener)]
+        self.tag = {}
         self.fail = {}         # thread -> how the opener fails on the next request of that thread
 
     def __enter__(self):
@@ -1237,7 +1260,8 @@ class _Capture:
         cap = self
 
         def opener(_self, request):
-            cap.sent.setdefault(threading.get_ident(), []).append(request.get_header("X-request-id"))
+            me = threading.get_ident()
+            cap.sent.setdefault(me, []).append((cap.tag.get(me, 0), request.get_header("X-request-id")))
             kind = cap.fail.pop(threading.get_ident(), None)
             if kind is not None:
                 raise make_failure(kind, request)
@@ -1257,7 +1281,8 @@ class _Capture:
         self._p.stop()
 
     def take(self, ident=None):
-        return self.sent.pop(ident if ident is not None else threading.get_ident(), [])
+        """ids of everything that reached the opener from this thread since the last take()"""
+        return [v for _, v in self.sent.pop(ident if ident is not None else threading.get_ident(), [])]
 
 
 class _Real:
@@ -1349,6 +1374,8 @@ class _Real:
     def send(self, c, hdrs, method="get", fail=None):
         """fail: the opener raises after it got the request; returns the canonical name of what came out"""
         conn, _ = self.conns[c]
+        me = threading.get_ident()
+        self.cap.tag[me] = self.cap.tag.get(me, 0) + 1
         kw = {"headers": hdrs} if hdrs is not None else {}
         if method in ("post", "put", "patch"):
             kw["data"] = {"k": 1}
@@ -1419,6 +1446,8 @@ def _run(case):
     try:
         return _run_lines(case)
     finally:
+        import logging
+        logging.getLogger("ak.conn_http").setLevel(logging.NOTSET)
         dt = time.time() - t0
         _SPENT[0] += dt
         if dt > CASE_BUDGET and not any(l.startswith("burst") for l in lines):
@@ -1449,6 +1478,14 @@ def _run_lines(case):
                         replies.append("err IndexError")
                     else:
                         replies.append("ok %d" % w.wrap(int(tok[1]), tok[2], tok[3] if len(tok) > 3 else "none"))
+                elif tok[0] == "log":       # DEBUG logging effective for the module's logger (records go nowhere)
+                    import logging
+                    lg = logging.getLogger("ak.conn_http")
+                    if not any(isinstance(h, logging.NullHandler) for h in lg.handlers):
+                        lg.addHandler(logging.NullHandler())
+                    lg.propagate = False
+                    lg.setLevel(logging.DEBUG if tok[1] == "debug" else logging.NOTSET)
+                    replies.append("ok")
                 elif tok[0] == "dict":
                     replies.append("ok %d" % w.new_dict(dec_hdrs(tok[1])))
                 elif tok[0] == "req":
@@ -1463,9 +1500,11 @@ def _run_lines(case):
                         fail = tok[4] if len(tok) > 4 and tok[4] in FAILURES else None
                         raised = w.send(c, hdrs, tok[3] if len(tok) > 3 else "get", fail)
                         got = cap.take()
-                        sent = w.canon(fam, got[0]) if len(got) == 1 else "<%d requests>" % len(got)
-                        d.update(fam=fam, supplied=[v for k, v in pairs if _is_id_name(k)] + w.id_values[c], sent=sent)
-                        after = ""
+                        got = [w.canon(fam, v) for v in got]
+                        sent = got[0] if got else "<nothing sent>"
+                        d.update(fam=fam, supplied=[v for k, v in pairs if _is_id_name(k)] + w.id_values[c], sent=sent,
+                                 resent=got[1:])
+                        after = "".join(" again " + _show(v) for v in got[1:])     # the same request handed over again
                         if tok[2].startswith("#"):     # the caller's object after the call
                             after = " dict=" + enc_hdrs([(k, w.canon(fam, _val(v))) for k, v in hdrs.items()])
                         if raised is not None:
@@ -1526,19 +1565,22 @@ def _run_par(w, cap, tok, d, gen_code):
     def body(k):
         def run():
             idents[k] = threading.get_ident()
+            cap.tag[idents[k]] = 0
             for j, (rc, hdrs, _pairs) in enumerate(threads[k]):
                 w.send(rc, hdrs, "get", fails[k][j])
         return run
 
     f = Forced(codes, [body(k) for k in range(len(threads))])
     status = f.run(sched)
-    out = []
+    out, extra = [], []
     for k, t in enumerate(threads):
-        got = [w.canon(fam, v) for v in cap.sent.pop(idents[k], [])] if idents[k] is not None else []
-        out.append(got)
+        sends = cap.sent.pop(idents[k], []) if idents[k] is not None else []
+        per = [[w.canon(fam, v) for tg, v in sends if tg == j + 1] for j in range(len(t))]
+        out.append([p[0] if p else "<missing>" for p in per])
+        extra.append([p[1:] for p in per])
     d.update(fam=fam, status=status, steps=list(f.steps),
              threads=[[{"supplied": [v for kk, v in pairs if _is_id_name(kk)] + w.id_values[rc],
-                        "sent": out[k][j] if j < len(out[k]) else "<missing>"}
+                        "sent": out[k][j], "resent": extra[k][j]}
                        for j, (rc, _hdrs, pairs) in enumerate(t)] for k, t in enumerate(threads)])
     errs = [e for e in f.exc if e is not None]
     if errs:
@@ -1547,7 +1589,8 @@ def _run_par(w, cap, tok, d, gen_code):
     if status != "ok":
         _DEAD[0] += 1
         return "err OUT-OF-FUEL" if status == "deadlock" else "err hang"
-    return "ok " + "|".join("." if not t else "+".join(_show(v) for v in t) for t in out)
+    return "ok " + "|".join("." if not t else "+".join(
+        _show(v) + "".join("&" + _show(x) for x in extra[k][j]) for j, v in enumerate(t)) for k, t in enumerate(out))
 
 
 def impl(case):
@@ -1607,8 +1650,8 @@ def oracle(case, replies):
             st["dead"] = True          # crash / deadlock: reported by the correspondence, no claim here
             continue
         where = "line %d (%s)" % (n, d["kind"])
-        if d["kind"] == "req":
-            groups = [[{"supplied": d["supplied"], "sent": d["sent"]}]]
+        if d["kind"] == "req":         # every time the request reached the opener is a send of its own
+            groups = [[{"supplied": d["supplied"], "sent": v}] for v in [d["sent"]] + list(d.get("resent", []))]
         elif d["kind"] == "burst":
             if len(d["sent"]) != d["n"]:
                 return "missing-request: %s sent %d of %d requests" % (where, len(d["sent"]), d["n"])
@@ -1641,7 +1684,7 @@ def oracle(case, replies):
         seqs = []
         for k, t in enumerate(d["threads"]):
             last = None
-            for r in t:
+            for r in [dict(r0, sent=v) for r0 in t for v in [r0["sent"]] + list(r0.get("resent", []))]:
                 if r["supplied"]:
                     if r["sent"] not in r["supplied"]:
                         return "caller-id: %s thread %d supplied %r, sent %r" % (where, k, r["supplied"], r["sent"])
@@ -1907,6 +1950,8 @@ def gen_cases(rng, tier):
             lines.append(_req_line(rng, allc, ndict=ndict))
             if rng.random() < 0.03:
                 lines.append("burst %d %d" % (rng.choice(allc), rng.randrange(1, 40)))
+        if rng.random() < 0.12:
+            lines.insert(0, "log debug")
         yield {"lines": lines, "meta": {"kind": "sequential" + ("-dicts" if ndict else "")}}
     # malformed stream: connections / dicts that do not exist, an Authorization header of the caller's or two
     # authenticating layers (the adapters refuse both with AssertionError, no id is taken)
@@ -1944,6 +1989,8 @@ def gen_cases(rng, tier):
         for _ in range(rng.choice([1, 1, 2])):
             lines.append(_par_line(rng, conns, kind, L, A, R, dicts=dicts))
             lines.append(_req_line(rng, conns, 1.0, ndict=ndict))
+        if rng.random() < 0.08:
+            lines.insert(0, "log debug")
         yield {"lines": lines, "meta": {"kind": "par-" + kind + ("-fresh" if fresh else "")}}
     # exhaustive small scope: two threads, one call each on a brand-new connection, each stopped at every position
     for a in range(0, L + 1):
@@ -2005,6 +2052,10 @@ def search_cases(rng, tier):
     for kind in sorted(ID_KINDS):
         yield {"lines": ["new %s 1" % x, wrap_line(0, kind, "Zad"), "req 0 _", "req 1 _", "req 0 _", "req 1 _ post", "req 0 _"],
                "meta": {"kind": "search-id-adapter"}}
+    # 2b''. DEBUG logging effective
+    yield {"lines": ["log debug", "new %s 1" % x, wrap_line(0, "bauth"), "req 0 _", "req 1 _ post",
+                     "req 0 %s" % enc_hdrs([("x-request-id", "Zown")]), "par 0 0@_|1@_ 0*5", "req 0 _"],
+           "meta": {"kind": "search-debug-logging"}}
     # 2c. requests that fail in the opener, then more requests
     for kind in sorted(FAILURES):
         for c in (0, 1):
@@ -2065,7 +2116,7 @@ def shrink(case):
                 and not (which == 0 and len(made) == 1):
             yield {"lines": lines[:made[-1]] + lines[made[-1] + 1:], "meta": meta}
     for i in range(len(lines) - 1, -1, -1):
-        if lines[i].split()[0] in ("req", "burst", "par", "parw"):
+        if lines[i].split()[0] in ("req", "burst", "par", "parw", "log"):
             yield {"lines": lines[:i] + lines[i + 1:], "meta": meta}
     for i, l in enumerate(lines):
         tok = l.split()
@@ -2108,7 +2159,9 @@ def tags(case, replies):
     nconn = 0
     for l, r in zip(case["lines"], replies):
         t = l.split()
-        if t[0] == "dict":
+        if t[0] == "log":
+            yield "log:" + t[1]
+        elif t[0] == "dict":
             dicts.append(dec_hdrs(t[1]))
             yield "dict:" + ("empty" if not dicts[-1] else "with-id" if any(_is_id_name(k) for k, _ in dicts[-1]) else "plain")
         elif t[0] == "new":
@@ -2150,7 +2203,9 @@ RULE = ("sequential scenarios (1-2 connection families built from 4 forms of con
         "capitalisations, passed in a dict built for the call or in one of 1-3 dicts the caller keeps and passes "
         "again (also through other connections of the family and concurrently), with and without a json body, "
         "8 % of them failing in the opener after the request was handed over (URLError, HTTPError, timeout, "
-        "RuntimeError) and followed by further requests, "
+        "RemoteDisconnected, ConnectionResetError, BrokenPipeError, RuntimeError; every time a request reaches "
+        "the opener counts as a send) and followed by further requests, ~10 % of the scenarios with DEBUG logging "
+        "effective for the module's logger, "
         "bursts across 9999->10000), "
         "forced interleavings of 2-4 real threads x 0-3 requests inside the real _generate_request_id (random runs, "
         "round robin, everybody stopped inside the locked section / in the prologue of its first call, whole-call "
@@ -2182,7 +2237,7 @@ LEVEL_TEXT = ("Proved in Lean for every program of the WellLocked shape, any num
               "Obligations re-decided from the source on every run: program_ok, format_ok, header_test_ok, "
               "hdr_init_ok, constructors_share, no_other_writer (nothing a request reaches except "
               "_generate_request_id assigns counter / lock / connection part: a request that fails in the opener "
-              "keeps its number), program_fuel. request_supplied_id: an id present after the adapters ran (the "
+              "keeps its number, and the logging helpers do not modify the request they log), program_fuel. request_supplied_id: an id present after the adapters ran (the "
               "caller's header or one put there by an adapter of the caller's) is sent and takes no number. "
               "format_injective. model = code: sequential scenarios "
               "(incl. reuse of caller dicts, all constructor pairs) and forced interleavings of real threads inside "
